@@ -11,6 +11,8 @@
 package c12
 
 import (
+	"time"
+	"crypto/sha256"
 	"encoding/json"
 	"fmt"
 	"runtime"
@@ -1072,18 +1074,35 @@ func replayPath(cfg *config, th *starlark.Thread, path []uint16, checkAll bool) 
 }
 
 type succ struct {
-	parent int
-	opi    uint16
-	key    string
-	bad    string
+	parent  int
+	opi     uint16
+	key     [16]byte // 128-bit digest of the canonical layout key (the key itself can be kilobytes)
+	bad     string
 	anomaly bool
 }
 
-func searchConfig(c *fw.Ctx, cfg *config, total *fw.Stats) {
+func digest(k string) [16]byte {
+	h := sha256.Sum256([]byte(k))
+	var d [16]byte
+	copy(d[:], h[:16])
+	return d
+}
+
+// maxStatesPerConfig bounds the memory of one search (about 100 bytes per
+// state: digest, map overhead, path); a search that reaches it is reported as
+// cut at that depth, never as exhaustive.
+const maxStatesPerConfig = 40_000_000
+
+// chunk: parents whose successors are computed (in parallel) and merged (in
+// order) together; bounds the memory held for one depth.
+const chunk = 1 << 15
+
+func searchConfig(c *fw.Ctx, cfg *config, total *fw.Stats, until time.Time) {
 	nw := runtime.NumCPU()
-	seen := map[string]struct{}{}
+	expired := func() bool { return c.Expired() || time.Now().After(until) }
+	seen := map[[16]byte]struct{}{}
 	st0 := newState(cfg, &starlark.Thread{Name: "c12"})
-	seen[st0.key()] = struct{}{}
+	seen[digest(st0.key())] = struct{}{}
 	if msg := st0.observe(); msg != "" {
 		total.Violate(cfg.name+":<init>", msg, violCase{Config: cfg.name})
 	}
@@ -1092,83 +1111,104 @@ func searchConfig(c *fw.Ctx, cfg *config, total *fw.Stats) {
 	depth := 0
 	fixpoint := false
 	nviol := 0
+	cutNote := ""
 	for len(frontier) > 0 {
 		if cfg.maxDepth > 0 && depth >= cfg.maxDepth {
 			break
 		}
-		if c.Expired() {
-			total.Cut = append(total.Cut, fmt.Sprintf("%s:depth%d(frontier %d)", cfg.name, depth+1, len(frontier)))
+		if expired() {
+			cutNote = fmt.Sprintf("%s:depth%d(frontier %d)", cfg.name, depth+1, len(frontier))
 			break
 		}
-		results := make([][]succ, nw)
-		var wg sync.WaitGroup
-		for w := 0; w < nw; w++ {
-			wg.Add(1)
-			go func(w int) {
-				defer wg.Done()
-				th := &starlark.Thread{Name: fmt.Sprintf("c12-%d", w)}
-				var out []succ
-				for pi := w; pi < len(frontier); pi += nw {
-					base := frontier[pi]
-					for oi := range cfg.ops {
-						path := append(append(make([]uint16, 0, len(base)+1), base...), uint16(oi))
-						st, bad, _ := replayPath(cfg, th, path, false)
-						s := succ{parent: pi, opi: uint16(oi), bad: bad}
-						if bad == "" {
-							// A back-link or tail pointer that disagrees with the forward list
-							// ("!bad..." in the layout) is not observable by itself; such a state is
-							// kept as a distinct state and explored, so that the first operation
-							// whose result it corrupts is reported with its full history.
-							s.key = st.key()
-							s.anomaly = strings.Contains(s.key, "!bad")
-						}
-						out = append(out, s)
-					}
-				}
-				results[w] = out
-			}(w)
-		}
-		wg.Wait()
-		var all []succ
-		for _, r := range results {
-			all = append(all, r...)
-		}
-		sort.Slice(all, func(i, j int) bool {
-			if all[i].parent != all[j].parent {
-				return all[i].parent < all[j].parent
-			}
-			return all[i].opi < all[j].opi
-		})
 		var next [][]uint16
-		for _, s := range all {
-			transitions++
-			path := append(append([]uint16{}, frontier[s.parent]...), s.opi)
-			if s.bad != "" {
-				if nviol < 20 {
-					vc := violCase{Tier: c.Tier, Config: cfg.name}
-					for _, o := range path {
-						vc.Path = append(vc.Path, int(o))
-						vc.Ops = append(vc.Ops, cfg.ops[o].name)
+		for lo := 0; lo < len(frontier) && cutNote == ""; lo += chunk {
+			hi := min(lo+chunk, len(frontier))
+			if lo > 0 && expired() {
+				cutNote = fmt.Sprintf("%s:depth%d(after %d of %d states of depth %d)", cfg.name, depth+1, lo, len(frontier), depth)
+				break
+			}
+			if states > maxStatesPerConfig {
+				cutNote = fmt.Sprintf("%s:depth%d(state cap %d reached after %d of %d states of depth %d)", cfg.name, depth+1, maxStatesPerConfig, lo, len(frontier), depth)
+				break
+			}
+			part := frontier[lo:hi]
+			results := make([][]succ, nw)
+			var wg sync.WaitGroup
+			for w := 0; w < nw; w++ {
+				wg.Add(1)
+				go func(w int) {
+					defer wg.Done()
+					th := &starlark.Thread{Name: fmt.Sprintf("c12-%d", w)}
+					var out []succ
+					path := make([]uint16, 0, 64)
+					for pi := w; pi < len(part); pi += nw {
+						base := part[pi]
+						for oi := range cfg.ops {
+							path = append(append(path[:0], base...), uint16(oi))
+							st, bad, _ := replayPath(cfg, th, path, false)
+							s := succ{parent: pi, opi: uint16(oi), bad: bad}
+							if bad == "" {
+								// A back-link or tail pointer that disagrees with the forward list
+								// ("!bad..." in the layout) is not observable by itself; such a state is
+								// kept as a distinct state and explored, so that the first operation
+								// whose result it corrupts is reported with its full history.
+								k := st.key()
+								s.key = digest(k)
+								s.anomaly = strings.Contains(k, "!bad")
+							}
+							out = append(out, s)
+						}
 					}
-					total.Violate(cfg.name+":"+strings.Join(vc.Ops, ";"), s.bad, vc)
-				}
-				nviol++
-				continue // do not explore beyond a violating state
+					results[w] = out
+				}(w)
 			}
-			if _, ok := seen[s.key]; !ok {
-				seen[s.key] = struct{}{}
-				states++
-				if s.anomaly {
-					total.Count(cfg.name+".states_with_inconsistent_back_links(explored further)", 1)
-				}
-				next = append(next, path)
+			wg.Wait()
+			var all []succ
+			for _, r := range results {
+				all = append(all, r...)
 			}
+			sort.Slice(all, func(i, j int) bool {
+				if all[i].parent != all[j].parent {
+					return all[i].parent < all[j].parent
+				}
+				return all[i].opi < all[j].opi
+			})
+			for _, s := range all {
+				transitions++
+				if s.bad != "" {
+					if nviol < 20 {
+						path := append(append([]uint16{}, part[s.parent]...), s.opi)
+						vc := violCase{Tier: c.Tier, Config: cfg.name}
+						for _, o := range path {
+							vc.Path = append(vc.Path, int(o))
+							vc.Ops = append(vc.Ops, cfg.ops[o].name)
+						}
+						total.Violate(cfg.name+":"+strings.Join(vc.Ops, ";"), s.bad, vc)
+					}
+					nviol++
+					continue // do not explore beyond a violating state
+				}
+				if _, ok := seen[s.key]; !ok {
+					seen[s.key] = struct{}{}
+					states++
+					if s.anomaly {
+						total.Count(cfg.name+".states_with_inconsistent_back_links(explored further)", 1)
+					}
+					next = append(next, append(append(make([]uint16, 0, len(part[s.parent])+1), part[s.parent]...), s.opi))
+				}
+			}
+		}
+		if cutNote != "" {
+			break
 		}
 		depth++
 		frontier = next
 		if len(frontier) == 0 {
 			fixpoint = true
 		}
+	}
+	if cutNote != "" {
+		total.Cut = append(total.Cut, cutNote)
 	}
 	total.States += states
 	total.Transitions += transitions
@@ -1309,8 +1349,25 @@ func longHistories(c *fw.Ctx, total *fw.Stats) {
 
 func run(c *fw.Ctx) *fw.Stats {
 	total := fw.NewStats()
-	for _, cfg := range configs(c.Tier) {
-		searchConfig(c, cfg, total)
+	// every configuration gets an equal share of the time that is left when it starts
+	// (a configuration that reaches its fixpoint early leaves its share to the later ones)
+	// The depth-bounded configurations run first, then the ones searched to a
+	// fixpoint, which take four shares each.
+	cfgs := configs(c.Tier)
+	sort.SliceStable(cfgs, func(i, j int) bool { return cfgs[i].maxDepth > 0 && cfgs[j].maxDepth == 0 })
+	weight := func(cfg *config) int {
+		if cfg.maxDepth == 0 {
+			return 4
+		}
+		return 1
+	}
+	for i, cfg := range cfgs {
+		rest := 0
+		for _, x := range cfgs[i:] {
+			rest += weight(x)
+		}
+		left := time.Until(c.Deadline)
+		searchConfig(c, cfg, total, time.Now().Add(left*time.Duration(weight(cfg))/time.Duration(rest)))
 	}
 	if c.Thorough() {
 		longHistories(c, total)
@@ -1358,6 +1415,7 @@ func init() {
 		Run:    run,
 		Replay: replay,
 		Assumptions: []string{
+			"visited states are remembered by the 128-bit SHA-256 digest of their canonical layout key (two states with the same digest would be merged; none is expected among fewer than 2^40 states); a search is cut, and reported as not exhaustive, at 40 million states",
 			"quick tier: dict values are not part of the state key (the table never inspects values); values are still compared on every explored transition; thorough includes them",
 			"configuration B relies on key symmetry (keys are only observed through Hash and ==): states are canonicalised by renaming keys to their order position",
 		},
